@@ -188,6 +188,12 @@ fn gen_node_pull(c: &mut Chooser, depth: usize, allow_take: bool) -> Node {
 
 /// Generate a case for operator `op` (one of ALL_OPS).
 pub fn gen_case(c: &mut Chooser, op: &str, prop: &str) -> CaseSpec {
+    gen_case_sized(c, op, prop, false)
+}
+
+/// `small`: tiny configurations for the schedule enumerator (at most 2 members / inners / sinks,
+/// scripts of at most 2 items, reaction tables of at most 3 entries, at most 5 driver steps)
+pub fn gen_case_sized(c: &mut Chooser, op: &str, prop: &str, small: bool) -> CaseSpec {
     let credit = prop == "C14";
     let indep = prop == "C13";
     let mut allow_late = false;
@@ -196,13 +202,13 @@ pub fn gen_case(c: &mut Chooser, op: &str, prop: &str) -> CaseSpec {
         "map" | "filter" | "scan" | "take" | "skip" => Topo::Unary(gen_unop(c, op)),
         "merge" => {
             allow_late = true;
-            Topo::Merge(if c.chance(1, 12) { 0 } else { 1 + c.choose(4) })
+            Topo::Merge(if c.chance(1, 12) { 0 } else { 1 + c.choose(if small { 2 } else { 4 }) })
         },
-        "concat" => Topo::Concat(if c.chance(1, 12) { 0 } else { 1 + c.choose(4) }),
-        "combine" => Topo::Combine(1 + c.choose(3)),
-        "flatten" => Topo::Flatten(c.choose(5)),
+        "concat" => Topo::Concat(if c.chance(1, 12) { 0 } else { 1 + c.choose(if small { 2 } else { 4 }) }),
+        "combine" => Topo::Combine(1 + c.choose(if small { 2 } else { 3 })),
+        "flatten" => Topo::Flatten(c.choose(if small { 3 } else { 5 })),
         "share" => {
-            n_probes = 1 + c.choose(3);
+            n_probes = 1 + c.choose(if small { 2 } else { 3 });
             Topo::Share(n_probes)
         },
         "for_each" => {
@@ -211,8 +217,13 @@ pub fn gen_case(c: &mut Chooser, op: &str, prop: &str) -> CaseSpec {
         },
         "from_iter" => Topo::FromIter([Some(0), Some(1), Some(2), Some(3), Some(6), None][c.choose(6)]),
         _ => {
-            let d = 1 + c.choose(3);
-            if indep {
+            let d = if small { 1 } else { 1 + c.choose(3) };
+            if !small && !indep && !credit && c.chance(1, 4) {
+                // an operator that completes its sink by itself on top of the tree: whatever the
+                // subtree still sends after being disposed becomes visible at the sink
+                let n = 1 + c.choose(3);
+                Topo::Tree(Node::Un(UnOp::Take(n), Box::new(gen_node(c, d))))
+            } else if indep {
                 Topo::Tree(gen_node_no_share(c, d))
             } else if credit {
                 Topo::Tree(gen_node_pull(c, d, true))
@@ -225,6 +236,18 @@ pub fn gen_case(c: &mut Chooser, op: &str, prop: &str) -> CaseSpec {
         allow_late = false;
     }
     if indep && !matches!(topo, Topo::Share(_) | Topo::ForEach) {
+        n_probes = 2;
+    }
+    if matches!(prop, "C08" | "C09" | "C10" | "C11")
+        && matches!(topo, Topo::Merge(_) | Topo::Concat(_) | Topo::Combine(_) | Topo::Flatten(_))
+        && !small
+        && c.chance(1, 4)
+    {
+        // the same output value subscribed twice: every subscription must satisfy the statement
+        n_probes = 2;
+    }
+    if prop == "C07" && matches!(topo, Topo::Unary(_)) && c.chance(1, 3) {
+        // the same output value subscribed twice: "a sink" means every sink
         n_probes = 2;
     }
     let n_puppets = match &topo {
@@ -256,7 +279,7 @@ pub fn gen_case(c: &mut Chooser, op: &str, prop: &str) -> CaseSpec {
             s.late = false;
         }
         pspecs.push(s);
-        lens.push(c.choose(5));
+        lens.push(c.choose(if small { 3 } else { 5 }));
     }
     if let Topo::Flatten(n) = &topo {
         lens[0] = *n;
@@ -281,12 +304,18 @@ pub fn gen_case(c: &mut Chooser, op: &str, prop: &str) -> CaseSpec {
             p.pull_cap = 5 + c.choose(30);
         }
     }
+    if small {
+        for p in probe_specs.iter_mut() {
+            p.policy.truncate(3);
+            p.pull_cap = p.pull_cap.min(6);
+        }
+    }
     CaseSpec {
         topo,
         pspecs,
         lens,
         probe_specs,
-        max_steps: 6 + c.choose(20),
+        max_steps: if small { 3 + c.choose(3) } else { 6 + c.choose(20) },
         drain: credit || c.chance(1, 2),
         credit_env: credit,
         weights: if credit { [8, 5, 4, 0, 0, 4] } else { [8, 5, 4, 1, 1, 4] },
